@@ -7,6 +7,7 @@ import (
 	"encoding/binary"
 	"fmt"
 	"os"
+	"runtime"
 	"runtime/debug"
 	"strings"
 	"testing"
@@ -59,7 +60,7 @@ func c11Positions(n int) []int {
 		if n > 700 && n <= 2100 && i >= 320 && i < n-320 {
 			continue
 		}
-		if n > 2100 && i >= 96 && i < n-64 {
+		if n > 2100 && i >= 48 && i < n-24 {
 			continue
 		}
 		out = append(out, i)
@@ -200,12 +201,12 @@ func TestVerif_C11B(t *testing.T) {
 	// first with the collector off, big ones (few, much garbage) afterwards with it on.
 	// A substituted byte can turn into (part of) a 32-bit length and make the parser allocate
 	// gigabytes before it notices the end of the input. With the collector running, freed
-	// address space is reused and has to be zeroed (about a second per case); with the
-	// collector off every such allocation is fresh, untouched address space (a millisecond).
-	// So: artefacts below 2 KiB first, collector off, every substitution; the few bigger ones
-	// afterwards with the collector on, where the four bytes of an existing 32-bit length are
-	// only substituted in their low-order byte (the same corruption is covered on the small
-	// artefacts that use 32-bit length forms).
+	// address space is reused, has to be zeroed (about a second per case) and becomes resident;
+	// with the collector off every such allocation is fresh, untouched address space (a
+	// millisecond). So the collector is off while substituting; shards are kept short-lived
+	// (many shards) so that the never-collected garbage stays small. Artefacts below 2 KiB come
+	// first; the few bigger ones (about 100 KB of garbage per case) are substituted in their
+	// first 48 and last 24 bytes only.
 	order := []int{}
 	for i, it := range items {
 		if len(it.Bytes) < 2048 {
@@ -223,15 +224,19 @@ func TestVerif_C11B(t *testing.T) {
 		it := items[i]
 		big := oi >= nsmall
 		if oi == nsmall {
+			// big artefacts produce ~100 KB of garbage per case: collect once here, then keep the
+			// collector off as well (reused address space would have to be zeroed and become resident)
 			debug.SetGCPercent(100)
+			runtime.GC()
+			debug.FreeOSMemory()
+			debug.SetGCPercent(-1)
 		}
 		len32at := -1
 		if big && len(it.Val.Raw) > 0 && it.Val.Raw[0] == 0x80 {
 			len32at = 9 + len(it.Bytes) - len(it.Val.Raw)
 		}
-		skipVal := func(pos, v int) bool {
-			return len32at >= 0 && pos > len32at && pos < len32at+4
-		}
+		skipVal := func(pos, v int) bool { return false }
+		_ = len32at
 		if !ev.Thorough() && ((i >= nvals && i%7 != 0) || len(it.Bytes) > 400) {
 			continue
 		}
@@ -250,6 +255,10 @@ func TestVerif_C11B(t *testing.T) {
 		c11File(c11Case{"rdb", i, 0, -1, it.Name}, items)
 		n++
 		for _, pos := range c11Positions(len(file)) {
+			if ev.OverBudget() {
+				ev.Cap("time budget")
+				break
+			}
 			for v := 0; v < 256; v++ {
 				if byte(v) == file[pos] || skipVal(pos, v) {
 					continue
@@ -264,6 +273,10 @@ func TestVerif_C11B(t *testing.T) {
 			p := rdbgen.Dump(it.Val.Type, it.Val.Raw, 6)
 			c11Dump(c11Case{"dump-intact", i, 0, 0, it.Name}, items)
 			for _, pos := range c11Positions(len(p)) {
+				if ev.OverBudget() {
+					ev.Cap("time budget")
+					break
+				}
 				for v := 0; v < 256; v++ {
 					if byte(v) == p[pos] {
 						continue
@@ -295,6 +308,6 @@ func TestVerif_C11B(t *testing.T) {
 	ev.Trace(n)
 	ev.Trans(n)
 	ev.StatesAdd(n)
-	ev.Bound("substitutions", "every position (first/last 320 bytes of artefacts longer than 700 bytes, first 96/last 64 of those longer than 2100) x all 255 other byte values; quick: artefacts up to 400 bytes")
+	ev.Bound("substitutions", "every position (first/last 320 bytes of artefacts longer than 700 bytes, first 48/last 24 of those longer than 2100) x all 255 other byte values; quick: artefacts up to 400 bytes")
 	ev.Sample("rdb-substitution", map[string]interface{}{"record": items[0].Name, "position": 12, "new_value": 0xff})
 }
